@@ -126,7 +126,7 @@ func short8(s string) string {
 }
 
 func runC05(r *core.Run) {
-	r.Rule("every script = pay answer in {success,pending,failed,error} x status-lookup sequence of length 0..3 over {notfound,error,failed,pending,succeeded} x assignment of each poll to {melt-quote poll, proof-state check} (quick: two assignments per script, thorough: all, plus the MPP entry point); non-trivial = distinct scripts in which at least one Lightning answer was consumed and every observation (API answers, persisted state read through a second connection, in-flight observation, follow-up swap / second melt) was compared with the decision table")
+	r.Rule("every script = pay answer in {success,pending,failed,error} x status-lookup sequence of length 0..3 over {notfound,error,failed,pending,succeeded} x assignment of each poll to {melt-quote poll, proof-state check} (quick: up to three assignments per script, and the MPP entry point with lookup sequences of length <= 2 and one assignment; thorough: all, for both entry points); non-trivial = distinct scripts in which at least one Lightning answer was consumed and every observation (API answers, persisted state read through a second connection, in-flight observation, follow-up swap / second melt) was compared with the decision table")
 	r.Assume("abstract states: L = quote PENDING + proofs PENDING, S = quote PAID with the payment's preimage + proofs SPENT, R = quote UNPAID + proofs UNSPENT; lookups made while the pay call executes answer 'in flight' and do not consume the script")
 	type job struct {
 		pay   int
@@ -146,11 +146,11 @@ func runC05(r *core.Run) {
 		}
 	}
 	for _, mpp := range []bool{false, true} {
-		if mpp && quick(r) {
-			continue
-		}
 		for pi := range c05Pay {
 			gen(nil, 3, func(looks []int) {
+				if mpp && quick(r) && len(looks) > 2 {
+					return // quick: the MPP entry point with lookup sequences of length <= 2
+				}
 				npolls := len(looks)
 				if (c05Pay[pi].name == "failed" || c05Pay[pi].name == "error") && npolls > 0 {
 					npolls-- // the melt itself consumes the first lookup
@@ -158,6 +158,9 @@ func runC05(r *core.Run) {
 				nass := 1 << uint(npolls)
 				for a := 0; a < nass; a++ {
 					if quick(r) && a != 0 && a != nass-1 && a != (0x5&(nass-1)) {
+						continue
+					}
+					if quick(r) && mpp && a != 0 {
 						continue
 					}
 					ch := make([]int, npolls)
@@ -171,9 +174,6 @@ func runC05(r *core.Run) {
 	}
 	tmpls := map[bool]*c05tmpl{}
 	for _, mpp := range []bool{false, true} {
-		if mpp && quick(r) {
-			continue
-		}
 		t, err := c05Template(r, mpp)
 		if err != nil {
 			r.Violate("setup", "template: "+err.Error(), "setup", nil)
@@ -220,7 +220,9 @@ func runC05(r *core.Run) {
 			key := fmt.Sprintf("%s;pay=%s", kind, pa)
 			r.Violate(key, what+" [script "+script+"]", script, map[string]any{"script": script, "observations": obs})
 		}
-		env.Node.PlanPay(t.hash, c05Pay[j.pay].plan)
+		plan := c05Pay[j.pay].plan
+		plan.ErrStatus = 1 + ji%2 // what accompanies a pay error alternates between the zero value and "pending"
+		env.Node.PlanPay(t.hash, plan)
 		var la []lnmodel.Answer
 		for _, l := range j.looks {
 			la = append(la, c05Look[l].a)
@@ -239,13 +241,26 @@ func runC05(r *core.Run) {
 			if p != "PENDING" || q != "PENDING" {
 				viol("in-flight-not-locked", fmt.Sprintf("while the pay call is executing the persisted state is proof=%s quote=%s, expected PENDING/PENDING", p, q))
 			}
+			// several clients look while the pay call is executing: state check, quote poll, state check
+			for i, probe := range []string{"check", "poll", "check"} {
+				if probe == "check" {
+					st, err := env.CheckState([]string{y})
+					if err == nil && len(st) == 1 && st[0].State.String() != "PENDING" {
+						viol("in-flight-state", fmt.Sprintf("proof reported %s by state check no. %d while the payment is in flight", st[0].State, i+1))
+					}
+				} else {
+					q, err := env.MeltQuoteState(t.quote)
+					if err == nil && q.State.String() != "PENDING" {
+						viol("in-flight-quote-state", fmt.Sprintf("quote reported %s by a poll while the payment is in flight", q.State))
+					}
+				}
+			}
 			_, err := env.Swap(cashu.Proofs{t.coin}, client.BMs(client.Outputs(rng, t.ksId, []uint64{64})))
 			if err == nil {
 				viol("in-flight-swap-accepted", "a swap of the melt inputs was accepted while the payment was in flight")
 			}
-			st, err := env.CheckState([]string{y})
-			if err == nil && len(st) == 1 && st[0].State.String() != "PENDING" {
-				viol("in-flight-state", "proof reported "+st[0].State.String()+" while the payment is in flight")
+			if p, q, _, _ := env.DBState(t.coin.Secret, t.quote); (p != "PENDING" || q != "PENDING") && err != nil {
+				viol("in-flight-not-locked", fmt.Sprintf("after state checks during the pay call the persisted state is proof=%s quote=%s, expected PENDING/PENDING", p, q))
 			}
 		}
 		// --- the melt
